@@ -183,6 +183,24 @@ CLAIMED['C05'] = dict(
          'detection, Master-only and termination are judged (the stops then follow C06). Sampled scenarios, not '
          'exhaustive on the implementation side.')
 
+CLAIMED['C12'] = dict(
+    engine='Replica',
+    technique='TLA+ spec Replica.tla (per-instance records fed by the handshake snapshot and the event stream, sender and '
+              'receiver filters, local handshake, crashes, restarts faster than detection) model-checked by TLC for the '
+              'current design (TruthOrLost) and for a repaired design (Truth, Agreement) + TLC monitor (ReplicaMon.tla, '
+              'same ghost of lost events) over recorded runs of a real 3-instance cluster under seeded random schedulers '
+              'and a sweep of one process event over every micro-step of a join',
+    text='TLC exhausts the model (2 instances, bounded events / crash / restart): every wrong record at quiescence is '
+         'explained by an event lost after the snapshot (the model exhibits F4 as a counterexample to Truth); on the real '
+         'code, at every quiescent step of every run, get_all_process_info of every instance is compared by TLC with the '
+         'Supervisor process tables and with the other instances, the loss ghost being recomputed from the observed '
+         'instance states and proxy steps.',
+    design_ref='DESIGN.md 3 C12',
+    note='Trusted: SimCluster; conciliation_strategy USER (nothing is stopped automatically); a STOPPING copy may be listed '
+         'or not; quiescence = all FIFOs empty, nobody CHECKING / CHECKED / FAILED, everybody sees everybody RUNNING. '
+         'Known finding F4 (records never refreshed around handshakes / unnoticed restarts): wrong records are only '
+         'accepted when the ghost explains them. Sampled schedules, not exhaustive on the implementation side.')
+
 PENDING_REASON = 'check not built yet (work in progress; see DESIGN.md section 3)'
 
 
